@@ -1,4 +1,5 @@
-(* C10/C11 driver: "run <hosts> <subs> <dials> <verifies> <controls> <end>" -> flags + JSON trace *)
+(* C10/C11 driver: "run <hosts> <subs> <dials> <verifies> <controls> <end>" -> flags + JSON trace
+   verifies: comma separated kind:delta[:vdelay] (vdelay = ticks until the decisive pair-verify answer) *)
 open Drv
 open Reconnect
 let sl = Stdlib.List.map
@@ -15,7 +16,8 @@ let vk_s = function
   | VInvalid -> "invalid" | VGarbage -> "garbage" | VPeerClose -> "peerclose" | VPeerReset -> "peerreset"
   | VHttp4xx -> "http4xx"
 let verif_of s = match Stdlib.String.split_on_char ':' s with
-  | [k; d] -> (vk_of k, n_of_dec d) | _ -> failwith "verif"
+  | [k; d] -> ((vk_of k, n_of_dec d), n_of_dec "0")
+  | [k; d; v] -> ((vk_of k, n_of_dec d), n_of_dec v) | _ -> failwith "verif"
 let control_of s = match Stdlib.String.split_on_char ':' s with
   | [t; k; a] ->
       let c = (match k with
